@@ -273,6 +273,22 @@ class StmtMixin:
                 for v in test.values:
                     self.refine(st, v, outcome)
             return
+        if isinstance(test, ast.Call) and isinstance(test.func, ast.Name) and test.func.id == 'isinstance' and outcome \
+                and len(test.args) == 2 and isinstance(test.args[0], ast.Name) and not isinstance(test.args[1], ast.Tuple):
+            # isinstance(x, C) holds on this path: x is (at least) a C from here on
+            v, fid = st.lookup(test.args[0].id)
+            if isinstance(v, VOpt) and v.inner[0] == 'ref':
+                v = v.some()          # isinstance(None, C) is false: the value is present on this path
+            if isinstance(v, VRef) and not getattr(v, 'exact', False):
+                tmp = st.copy()
+                try:
+                    (s2, cv), = self.eval(tmp, test.args[1])
+                except Exception:
+                    return
+                if isinstance(cv, VFunc) and cv.kind == 'class' and (v.cls is None or self.issub(cv.key, v.cls)):
+                    nv = VRef(v.t, cv.key)
+                    st.frames[fid][test.args[0].id] = nv
+            return
         name, is_none = None, None
         if isinstance(test, ast.Compare) and len(test.ops) == 1 and isinstance(test.left, ast.Name) \
                 and isinstance(test.comparators[0], ast.Constant) and test.comparators[0].value is None:
